@@ -105,7 +105,7 @@ class Executor:
     def axioms(self, heaps=()):
         # the axiom set depends only on the symbols registered so far: rebuilt when a new one appears
         key = (len(smt._str_consts), len(smt._sentinels), len(smt._attr_funcs), len(smt._meth_funcs), len(smt._inst_preds), len(REG.classes),
-               len(self.extra_axioms), None if self.heap0 is None else id(self.heap0), len(self.model.used))
+               len(self.extra_axioms), None if self.heap0 is None else id(self.heap0), len(self.model.used), len(smt.BOX_FACTS))
         cached = getattr(self, "_ax_cache", None)
         if cached is not None and cached[0] == key:
             return list(cached[1])
@@ -113,7 +113,7 @@ class Executor:
         if self.heap0 is not None:
             ax += smt.heap_wellformed(self.heap0) + smt.alloc_closure(self.heap0)
         key = (len(smt._str_consts), len(smt._sentinels), len(smt._attr_funcs), len(smt._meth_funcs), len(smt._inst_preds), len(REG.classes),
-               len(self.extra_axioms), None if self.heap0 is None else id(self.heap0), len(self.model.used))
+               len(self.extra_axioms), None if self.heap0 is None else id(self.heap0), len(self.model.used), len(smt.BOX_FACTS))
         self._ax_cache = (key, list(ax))
         return ax
 
@@ -141,6 +141,8 @@ class Executor:
     def lookup(self, name: str, st: St):
         if name in st.env:
             return st.env[name]
+        if name == "_yield" and "$yield" in st.env:
+            return st.env["$yield"]  # ghost: the sequence a generator has yielded so far (clauses only)
         if hasattr(self.real_module, name):
             return self.lift_global(getattr(self.real_module, name), name)
         spec = self.project.spec_functions.get(name)
